@@ -430,11 +430,16 @@ def merged_bool_source(body, sym, discr_op, allow_named=False):
             l = op_place(sd[2]["a"])["l"]
         else:
             break
-    if 1 <= l <= body.arg_count or (l in body.names and not allow_named):
+    if 1 <= l <= body.arg_count:
         return None
     defs = body.defs().get(l, [])
     if len(defs) < 2:
         return None
+    if l in body.names and not allow_named:
+        # a named flag is read the same way when it is assigned once per path and never again: `let ok = a && b;` outside
+        # any loop, not borrowed mutably (a `let mut found = false; for .. { found = true }` flag is not that)
+        if any(body.in_loop(d[0]) for d in defs) or l in body.mut_borrowed_locals():
+            return None
     consts = [d for d in defs if d[2].get("k") == "use" and const_int(d[2]["a"]) in (0, 1)]
     comp = [d for d in defs if d not in consts]
     if len(comp) != 1 or not consts or len({const_int(d[2]["a"]) for d in consts}) != 1 or comp[0][2].get("k") == "partial":
